@@ -5,6 +5,7 @@
    validation.ValidateStruct validates every field (errors are collected, a panic in any field
    rule aborts everything); per field the rules run in order up to the first error, then every
    non-nil element's own Validate runs (the validation library skips nil pointers itself).
+   (Found by the correspondence run: for a signed envelope an invalid stamp masks the nil panic.)
    `guarded = false`: as shipped; `guarded = true`: repaired (nil entries skipped by the duplicate
    detectors).  No proofs here. *)
 From Coq Require Import List ZArith Bool.
@@ -76,8 +77,16 @@ Section HeaderValidate.
   Definition link_valid (l : option link) : bool :=
     match l with None => true | Some a => negb (l_key a =? 0)%Z && negb (l_url a =? 0)%Z && l_url_ok a end.
 
+  (* rules of the Stamps field, in order:
+       validation.When(!signed, validation.Empty)  -- unsigned: must be empty; signed: When's (empty)
+                                                      else-branch validates the ELEMENTS first, and an
+                                                      invalid element ends the field's rules there
+       DetectDuplicateStamps
+     then the elements' own validation *)
   Definition stamps_field (signed : bool) (ss : list (option stamp)) : result unit herr :=
-    if negb signed && negb (match ss with [] => true | _ => false end) then Err FieldErr  (* Empty *)
+    if (if signed then negb (forallb stamp_valid ss)
+        else negb (match ss with [] => true | _ => false end))
+    then Err FieldErr
     else match dup_stamps ss [] with
          | Ok _ => if forallb stamp_valid ss then Ok tt else Err FieldErr
          | r => r
